@@ -43,6 +43,16 @@ func (c *ctx) emit(format string, a ...interface{}) {
 
 func (c *ctx) count(key string) { c.stats[key]++ }
 
+// die ends the harness after writing out what has been observed so far (complete lines only are ever buffered)
+var dieFlush func()
+
+func die(code int) {
+	if dieFlush != nil {
+		dieFlush()
+	}
+	os.Exit(code)
+}
+
 func main() {
 	seed := flag.Uint64("seed", 1, "PRNG seed")
 	tier := flag.String("tier", "quick", "quick|thorough")
@@ -69,6 +79,7 @@ func main() {
 		defer w.Close()
 	}
 	c := &ctx{rng: newRng(*seed), tier: *tier, out: bufio.NewWriterSize(w, 1<<20), stats: map[string]int{}, args: flag.Args()[1:]}
+	dieFlush = func() { c.out.Flush() }
 	c.emit("H stream=%s seed=%d tier=%s", flag.Arg(0), *seed, *tier)
 	f(c)
 	c.out.Flush()
